@@ -7,6 +7,7 @@ import (
 	"math/rand"
 	"reflect"
 	"regexp"
+	"sync"
 	"time"
 
 	"go.flow.arcalot.io/expressions"
@@ -319,10 +320,17 @@ func sliceItemType(
 
 var characters = []rune("abcdefghijklmnopqrstuvwxyz0123456789")
 var objectIDRandom = rand.New(rand.NewSource(time.Now().UnixNano())) //nolint:gosec
+
+// objectIDRandomLock guards objectIDRandom: a rand.Rand must not be used by several
+// goroutines at once, and workflows may be prepared concurrently.
+var objectIDRandomLock sync.Mutex
+
 func generateRandomObjectID(purpose string) string {
 	result := make([]rune, 32)
+	objectIDRandomLock.Lock()
 	for i := range result {
 		result[i] = characters[objectIDRandom.Intn(len(characters))]
 	}
+	objectIDRandomLock.Unlock()
 	return purpose + "_" + string(result)
 }
